@@ -82,6 +82,7 @@ OPS = {
     "gac": {"op": "gac", "pool": 0, "rex": True, "waiters": 1},
     "apply1": {"op": "apply", "pool": 0, "num": 1, "args": 1, "fname": "x", "marker": True, "bodies": [{"pre": [["y", 1]]}]},
     "start1": {"op": "start", "pool": 0, "num": 1},
+    "set_same": {"op": "set_size", "pool": 0, "v": "same"},
     "regroup": {"op": "seq", "steps": [{"op": "cancel_group", "pool": 0, "sel": ["live", 0]},
                                        {"op": "apply", "pool": 0, "num": 2, "args": 1, "fname": "w", "marker": True, "gname": ["reuse_last"], "bodies": [{"pre": [["y", 1]]}]}]},
     "regroup_map": {"op": "seq", "steps": [{"op": "cancel_group", "pool": 0, "sel": ["live", 1]},
@@ -89,7 +90,7 @@ OPS = {
 }
 
 SPECS = {
-    "C01": ["cancel0", "cancel_group0", "cancel_all", "stop1", "flush", "apply1", "start1"],
+    "C01": ["cancel0", "cancel_group0", "cancel_all", "stop1", "flush", "apply1", "start1", "set_same"],
     "C02": ["cancel0", "cancel_last", "cancel2", "cancel_group0", "cancel_group1", "cancel_all", "stop1", "stop_all", "flush"],
     "C03": ["cancel0", "cancel_twice", "cancel_group0", "cancel_all", "stop2", "flush"],
     "C04": ["lock", "gac", "cancel0", "cancel_group1", "regroup"],
